@@ -14,6 +14,7 @@ import (
 	"fmt"
 	"os"
 	"strings"
+	"sync"
 	"sync/atomic"
 	"testing"
 	"time"
@@ -83,6 +84,13 @@ func genC13(t *rapid.T) C13Case {
 			}
 			c.Ops = append(c.Ops, C13Op{Op: "dup", Name: nm, Desc: genUTF8(t, "dupdesc", 10)})
 		case 5, 6:
+			if rapid.IntRange(0, 9).Draw(t, "race") == 0 {
+				fresh++
+				name := fmt.Sprintf("org.example.race%d", fresh)
+				names = append(names, name)
+				c.Ops = append(c.Ops, C13Op{Op: "dup-race", Name: name, Desc: genUTF8(t, "racedesc", 20)})
+				continue
+			}
 			c.Ops = append(c.Ops, C13Op{Op: "listen", Unix: rapid.IntRange(0, 3).Draw(t, "unix") == 0})
 		case 7:
 			c.Ops = append(c.Ops, C13Op{Op: "shutdown"})
@@ -95,6 +103,23 @@ func genC13(t *rapid.T) C13Case {
 }
 
 var c13Counter int64
+
+// slowDescIface is a dispatcher whose description getter can be made to block (to overlap two registrations).
+type slowDescIface struct {
+	name, desc string
+	wait       func()
+}
+
+func (s *slowDescIface) VarlinkGetName() string { return s.name }
+func (s *slowDescIface) VarlinkGetDescription() string {
+	if s.wait != nil {
+		s.wait()
+	}
+	return s.desc
+}
+func (s *slowDescIface) VarlinkDispatch(ctx context.Context, c varlink.Call, m string) error {
+	return c.ReplyMethodNotFound(ctx, m)
+}
 
 type c13Run struct {
 	svc       *varlink.Service
@@ -263,6 +288,48 @@ func execC13(c C13Case, bound time.Duration) (facts map[string]int, err error) {
 					return facts, fmt.Errorf("%sregistration of a fresh name on a service that is not listening was refused: %v", pre, rerr)
 				}
 				facts["registered"]++
+				r.names = append(r.names, op.Name)
+				r.descs[op.Name] = op.Desc
+			}
+		case "dup-race":
+			// two registrations of the same fresh name overlap in time (the description getter of the first
+			// blocks until the second is in flight, or 30 ms): exactly one may succeed while not listening, none while listening
+			if _, known := r.descs[op.Name]; known || op.Name == "org.varlink.service" {
+				continue
+			}
+			gate := make(chan struct{})
+			var once sync.Once
+			mk := func() *slowDescIface {
+				return &slowDescIface{name: op.Name, desc: op.Desc, wait: func() {
+					once.Do(func() {})
+					select {
+					case <-gate:
+					case <-time.After(30 * time.Millisecond):
+					}
+				}}
+			}
+			errs := make(chan error, 2)
+			go func() { errs <- svc.RegisterInterface(mk()) }()
+			go func() { time.Sleep(2 * time.Millisecond); errs <- svc.RegisterInterface(mk()) }()
+			e1, e2 := <-errs, <-errs
+			close(gate)
+			ok := 0
+			if e1 == nil {
+				ok++
+			}
+			if e2 == nil {
+				ok++
+			}
+			facts["dup-race"]++
+			switch {
+			case r.listening && ok != 0:
+				return facts, fmt.Errorf("%sregistering while the service is listening was accepted (%d of two overlapping attempts)", pre, ok)
+			case !r.listening && ok != 1:
+				return facts, fmt.Errorf("%stwo overlapping registrations of the same fresh name: %d succeeded, want exactly one (errors: %v / %v)", pre, ok, e1, e2)
+			}
+			if ok == 1 {
+				facts["registered"]++
+				facts["refused-duplicate"]++
 				r.names = append(r.names, op.Name)
 				r.descs[op.Name] = op.Desc
 			}
